@@ -91,6 +91,13 @@ def build_system(name, seed=0, symmetric=False):
     elif name == "kp":
         s = _kp_system()
         gen = None
+    elif name == "phonon":
+        # phonon flag: band "energies" are sqrt of the eigenvalues (shifted to [~1, ~5] so that they are positive)
+        s = zoo.make_system(2, "orth", "shell1", "generic", seed=seed, matrices=("Ham",), tag="phonon")
+        H = s.get_R_mat("Ham")
+        H[s.rvec.iR0] += 2.5 * np.eye(2)
+        s.is_phonon = True
+        gen = None
     else:
         raise KeyError(name)
     if symmetric:
